@@ -77,6 +77,7 @@ Fixpoint selfdesc (t : ty) : bool :=
   implied t ||
   match t with
   | TRec _ | TArr _ => true
+  | TNamed _ (TNamed _ _) => false     (* the inner name does not appear in the value *)
   | TNamed _ u => selfdesc u
   | TPrim _ => false
   end.
@@ -103,13 +104,6 @@ Fixpoint assoc (n : name) (l : list (name * ty)) : option ty :=
 
 Definition is_some {A} (o : option A) : bool := match o with Some _ => true | None => false end.
 
-(* Formatter.hasName: by name only *)
-Definition has_name (P : persist) (st : fstate) (t : ty) : bool :=
-  match t with
-  | TNamed n _ => is_some (assoc n (tdefs st)) || (persist_enabled P && is_some (assoc n (perm st)))
-  | _ => false
-  end.
-
 Definition bound_to (n : name) (t : ty) (l : list (name * ty)) : bool :=
   match assoc n l with Some u => ty_eqb t u | None => false end.
 
@@ -122,6 +116,9 @@ Definition name_of (P : persist) (st : fstate) (t : ty) : option name :=
     else None
   | _ => None
   end.
+
+(* Formatter.hasName: the name is bound to exactly this type *)
+Definition has_name (P : persist) (st : fstate) (t : ty) : bool := is_some (name_of P st t).
 
 Definition save_type (P : persist) (st : fstate) (n : name) (t : ty) : fstate :=
   mkF ((n, t) :: tdefs st)
@@ -197,13 +194,13 @@ Definition znull : zval := ZImplied (APrim ID_NULL null_tok).
 
 (* Formatter.formatValue (formatRecord, formatVector inlined) *)
 Fixpoint fv (P : persist) (st : fstate) (t : ty) (v : val) (pk pi dec : bool) {struct t}
-  : zval * fstate :=
+  : zval * bool * fstate :=
   let known := pk || has_name P st t in
   match v with
   | VNull =>
     let pk' := if pi then false else pk in
-    if dec then let '(d, st1) := decorate P st t pk' true in (wrap znull d, st1)
-    else (znull, st)
+    if dec then let '(d, st1) := decorate P st t pk' true in (wrap znull d, true, st1)
+    else (znull, true, st)
   | _ =>
     let '(z, isnull, st1) :=
       match t with
@@ -212,8 +209,7 @@ Fixpoint fv (P : persist) (st : fstate) (t : ty) (v : val) (pk pi dec : bool) {s
         | VPrim cls tok => (ZImplied (APrim cls tok), false, st)
         | _ => (znull, false, st)
         end
-      | TNamed _ u =>
-        let '(z, st1) := fv P st u v known pi false in (z, false, st1)
+      | TNamed _ u => fv P st u v known pi false
       | TRec fs =>
         match v with
         | VRec vs =>
@@ -222,7 +218,7 @@ Fixpoint fv (P : persist) (st : fstate) (t : ty) (v : val) (pk pi dec : bool) {s
                : list (name * zval) * fstate :=
                match fs, vs with
                | (n, ft) :: fr, x :: xr =>
-                 let '(z, st1) := fv P st ft x known pi true in
+                 let '(z, _, st1) := fv P st ft x known pi true in
                  let '(zs, st2) := go fr xr st1 in ((n, z) :: zs, st2)
                | _, _ => ([], st)
                end) fs vs st in
@@ -238,24 +234,29 @@ Fixpoint fv (P : persist) (st : fstate) (t : ty) (v : val) (pk pi dec : bool) {s
                match vs with
                | [] => ([], st)
                | x :: xr =>
-                 let '(z, st1) := fv P st u x known pi true in
+                 let '(z, _, st1) := fv P st u x known pi true in
                  let '(zs, st2) := go xr st1 in (z :: zs, st2)
                end) vs st in
           (ZImplied (AArr zs), false, st1)
         | _ => (znull, false, st)
         end
       end in
-    if dec then let '(d, st2) := decorate P st1 t pk isnull in (wrap z d, st2)
-    else (z, st1)
+    if dec then let '(d, st2) := decorate P st1 t pk isnull in (wrap z d, isnull, st2)
+    else (z, isnull, st1)
   end.
 
 Definition is_null (v : val) : bool := match v with VNull => true | _ => false end.
 
-(* Formatter.formatValueAndDecorate: note  bytes == nil  (not the "empty" flag) *)
+(* emptyImpliesType: [] without a decorator is parsed as [null] *)
+Definition empty_implies (t : ty) : bool :=
+  match t with TArr u => ty_eqb u (TPrim ID_NULL) | _ => false end.
+
+(* Formatter.formatValueAndDecorate *)
 Definition fmt_top (P : persist) (st : fstate) (t : ty) (v : val) : zval * fstate :=
   let known := has_name P st t in
-  let '(z, st1) := fv P st t v known (implied t) false in
-  let '(d, st2) := decorate P st1 t false (is_null v) in
+  let '(z, null, st1) := fv P st t v known (implied t) false in
+  let null' := if negb (is_null v) && empty_implies t then false else null in
+  let '(d, st2) := decorate P st1 t false null' in
   (wrap z d, st2).
 
 (* a stream: Format keeps typedefs, FormatRecord ([reset]) clears them per value *)
@@ -373,6 +374,14 @@ Fixpoint elem_type (ts : list ty) : option ty :=
     end
   end.
 
+(* convertValue, DefValue: the enclosing decorator already gave the value the
+   named type of this name *)
+Definition restates (parent : option ty) (t : ty) (n : name) : bool :=
+  match parent, t with
+  | Some p, TNamed m _ => ty_eqb p t && name_eqb m n
+  | _, _ => false
+  end.
+
 Definition type_check (cast : ty) (parent : option ty) : bool :=
   match parent with None => true | Some p => ty_eqb cast p end.
 
@@ -382,7 +391,9 @@ Fixpoint conv_val (a : astate) (z : zval) (parent : option ty) {struct z}
   | ZImplied x => conv_any a x parent
   | ZDef x n =>
     match conv_any a x parent with
-    | Some (t, v, a1) => let t' := if numeric n then t else TNamed n t in Some (t', v, (n, t') :: a1)
+    | Some (t, v, a1) =>
+      if restates parent t n then Some (t, v, (n, t) :: a1)
+      else let t' := if numeric n then t else TNamed n t in Some (t', v, (n, t') :: a1)
     | None => None
     end
   | ZDefNil _ => None
